@@ -368,6 +368,7 @@ func (e dispatcherCompleteEvent) apply(s *state) {
 	for _, errc := range ctrl.errors {
 		errc <- nil
 	}
+	ctrl.errors = nil // Answered: a later removal must not answer them again.
 	if ctrl.localRequest {
 		downloadTime := s.sched.clock.Now().Sub(ctrl.dispatcher.CreatedAt())
 		observability.EmitDownloadPerformance(s.sched.stats, observability.TORRENT_LEECH, ctrl.dispatcher.Length(), downloadTime)
